@@ -42,7 +42,7 @@ MANIFEST = {
                  "every step, ddmin replay",
 }
 CONFIGS = {
-    "quick": [("simple", 9000), ("digraph", 6000), ("bipartite", 6000)],
+    "quick": [("simple", 30000), ("digraph", 20000), ("bipartite", 20000)],
     "thorough": [("simple", 4), ("digraph", 3), ("bipartite", 3)],
 }
 CHUNK = 300
